@@ -1,1 +1,3 @@
 pub mod hist_props;
+pub mod c13;
+pub mod c12;
